@@ -44,6 +44,13 @@ var fullStackReal = []string{
 
 var props = []*prop{
 	{
+		ID: "C07", Binary: "simcore", Quick: 1500, Thorough: 40000, RunWall: 180 * time.Second,
+		Variants: []variant{{Scenario: "c07", Weight: 1}},
+		Real:     []string{"tars/transport: TarsServer + tcpHandler receive loop and TarsClient receive loop (instrumented)", "tars/protocol.TarsRequest / TarsProtocol.ParsePackage and SetMaxPackageLength (real)", "tars/util/gpool (server worker pool in some runs)"},
+		Stub:     append([]string{netStub, "protocol layer above the framing -> recording ServerProtocol.Invoke / ClientProtocol.Recv", "peers -> scripted raw writers"}, commonStub...),
+		Rule:     "one case = one simulated run: 1-3 connections into a real TarsServer and 1-2 real TarsClients, each fed a tape-drawn sequence of 1-12 frames (lengths 4, 5, small, around 4096 and 8192, max-1, max) optionally followed by an illegal length prefix (0-3, max+1, huge) and further frames; the stream is written in tape-drawn chunks (single bytes, cuts inside the prefix, large chunks, pauses) and read in tape-drawn fragments; maximum package length 64/1000/4096/10MiB, server pool 0/1/3; distinct = distinct (event-log hash, switch trace hash); non-trivial = at least one preemption, stall or fired fault",
+	},
+	{
 		ID: "C08", Binary: "simcore", Quick: 1500, Thorough: 40000, RunWall: 120 * time.Second,
 		Variants: []variant{{Scenario: "c08", Weight: 1}},
 		Real:     fullStackReal,
